@@ -4,6 +4,8 @@
 (* (in the configurations that allow them) deletes.                                          *)
 EXTENDS Bm25Struct
 
+CONSTANT MCLeaderFieldNorm   \* NEGATIVE switch of the cross-field lemma: score every clause with the first clause's field-norm id
+
 B1 == <<16384, 0>>        \* 2.0f32
 B2 == <<16128, 0>>        \* 0.5f32
 C1 == <<16087, 2621>>     \* 0.42f32
@@ -31,6 +33,45 @@ MCQueries ==
     [k |-> "dismax", tie |-> T1, qs |-> <<QP(<<"a", "b">>), [k |-> "boost", b |-> B1, q |-> QT("b")]>>],
     [k |-> "boost", b |-> B2, q |-> QB(<<Cl("should", QT("a")), Cl("should", [k |-> "const", c |-> C1, q |-> QT("a")])>>)],
     QB(<<Cl("should", [k |-> "dismax", tie |-> T1, qs |-> <<QT("a"), QT("b")>>]), Cl("should", QT("a"))>>) }
+
+(* Cross-field lemma: two scored fields of different lengths.  For every pair of two-field documents  *)
+(* (f1 short, f2 long and padded) and the conjunction +f1:a +f2:b (also boosted, with a should clause   *)
+(* on a third occurrence, and under a dis-max), every bm25 leaf of the score term carries the           *)
+(* statistics and the quantised length of ITS OWN field.                                                *)
+F1Docs == {[toks |-> t, pad |-> 0] : t \in {<<"a">>, <<"a", "b">>, <<"b", "a", "a">>}}
+F2Docs == {[toks |-> t, pad |-> p] : t \in {<<"b">>, <<"a", "b", "b">>}, p \in {3, 9}}
+TwoFieldDocs == {[f1 |-> x, f2 |-> y] : x \in F1Docs, y \in F2Docs}
+FT(f, w) == [k |-> "term", w |-> w, f |-> f]
+CrossQueries ==
+  { QB(<<Cl("must", FT("f1", "a")), Cl("must", FT("f2", "b"))>>),
+    QB(<<Cl("must", FT("f2", "b")), Cl("must", FT("f1", "a"))>>),
+    QB(<<Cl("must", FT("f1", "a")), Cl("must", FT("f2", "b")), Cl("should", FT("f2", "a"))>>),
+    [k |-> "boost", b |-> B1, q |-> QB(<<Cl("must", FT("f1", "a")), Cl("must", FT("f2", "b"))>>)],
+    [k |-> "dismax", tie |-> T1, qs |-> <<FT("f1", "a"), FT("f2", "b"), [k |-> "phrase", ws |-> <<"b", "b">>, f |-> "f2"]>>] }
+RECURSIVE FirstField(_)
+FirstField(q) == CASE q.k \in {"term", "phrase"} -> Fld(q)
+                   [] q.k = "bool" -> FirstField(q.cl[1].q)
+                   [] q.k = "dismax" -> FirstField(q.qs[1])
+                   [] OTHER -> FirstField(q.q)
+\* the field-norm ids an implementation hands to the clauses of q for document d
+UsedFieldNorms(q, d) ==
+  IF MCLeaderFieldNorm THEN [f \in {"f1", "f2"} |-> NormId(Table, DocLen(d[FirstField(q)]))]
+  ELSE [f \in {"f1", "f2"} |-> NormId(Table, DocLen(d[f]))]
+RECURSIVE LeafSet(_)
+LeafSet(t) == IF t.k = "bm25" THEN {t} ELSE IF t.k = "const" THEN {} ELSE UNION {LeafSet(t.args[i]) : i \in DOMAIN t.args}
+CrossFieldLemma ==
+  Len(segs) >= 0 /\      \* (a state-level formula, so that TLC reports a violation of it as an invariant violation)
+  \A d1, d2 \in TwoFieldDocs : \A q \in CrossQueries :
+    LET corpus == <<d1, d2>>
+        st == StatsF(<<corpus>>, {"f1", "f2"}, {"a", "b"})
+        own == [f \in {"f1", "f2"} |-> NormId(Table, DocLen(d1[f]))]
+        t == ScoreTermF(q, d1, st, <<>>, UsedFieldNorms(q, d1))
+    IN  /\ st.T["f1"] = DocLen(d1["f1"]) + DocLen(d2["f1"]) /\ st.T["f2"] = DocLen(d1["f2"]) + DocLen(d2["f2"])
+        /\ IsSome(t) <=> MatchesF(q, d1)
+        /\ IsSome(t) =>
+             \A leaf \in {x \in LeafSet(t) : x.boosts = <<>> \/ x.boosts = <<B1>>} :
+               \/ leaf.T = st.T["f1"] /\ leaf.fn = own["f1"] /\ \E w \in {"a", "b"} : leaf.ns = <<st.n["f1"][w]>> /\ leaf.tf = Tf(d1["f1"], w)
+               \/ leaf.T = st.T["f2"] /\ leaf.fn = own["f2"]
 
 \* a small quantisation table of the same shape as the real one (exact, then coarser)
 MCTable == <<0, 1, 2, 3, 4, 6, 8, 12>>
